@@ -259,6 +259,9 @@ func (p *parser) parseObjectPropertyKey() (string, string) {
 		// null, false, class, etc.
 		if isIdentifierName(literal) {
 			value = literal
+		} else {
+			// A PropertyName is an IdentifierName, a string or a number (ES5 11.1.5), not any token.
+			p.errorUnexpectedTokenAt(idx, tkn, literal)
 		}
 	}
 	return literal, value
